@@ -844,7 +844,8 @@ Qed.
 
 (* 19. WHOLE-URL parser agreement for set_path and set_host(Some) - the two setters section 18 left at the state level.
    For a canonical record u WITH an authority (both classes: non-special scheme, special non-file scheme):
-   - set_path(x), x free of '?' and '#' (the parser ends the path there, the setter encodes them) and EMPTY OR '/'-LED
+   - set_path(x), x free of '?' and '#' (the parser ends the path there, the setter encodes them) and EMPTY OR '/'-LED - or
+     '\'-led on a special URL, where both sides read it as '/' -
      (path_arg_ok; otherwise the spliced text continues the host or port text: it is not a splice of the path), and -
      only when the URL has neither query nor fragment - not ending in a C0 control or space: parse_url on
      front ++ x ++ "?query#fragment" returns exactly the setter's record; the setter's record is the canonical record
@@ -857,18 +858,17 @@ Qed.
      (Proofs/C06_SpliceHost.v: set_host_auth computes it: auth_url .. h' .. with h' the host the parser of the scheme
      type returns for x).
    Both results are canonical again (C06_set_path_Canon, C06_set_host_Canon), so the theorems apply along histories.
-   NOT covered: a '\'-led path argument on a special URL (the parser reads it as '/'; the state-level theorem
-   C06_parser_agreement_set_path covers it), bracketed IPv6 host arguments, the authority-less layouts, file URLs. *)
+   NOT covered: bracketed IPv6 host arguments, the authority-less layouts, file URLs. *)
 From RU Require Import Proofs.C02_Reach3 Proofs.C06_SplicePath Proofs.C06_SpliceHost Proofs.C06_SpliceEx2 Proofs.C06_All.
 
 Theorem C06_splice_agreement_set_path : forall dbg hp hpo hd u x u', HostRT hp hpo hd -> Canon hp hpo hd u ->
-  has_authority_b u = true -> usv_list x -> forallb no_qh x = true -> path_arg_ok x ->
+  has_authority_b u = true -> usv_list x -> forallb no_qh x = true -> path_arg_ok (sp_of u) x ->
   (query_start u = None -> fragment_start u = None -> first_ok (rev x)) ->
   set_path dbg u x = Some u' -> nlen (ser u') <= U32_MAX_P ->
   parse_url dbg hp hpo hd None None (splice_path u x) = POk u'.
 Proof. intros dbg hp hpo hd u x u' HRT. exact (splice_agreement_set_path dbg hp hpo hd HRT u x u'). Qed.
 Check C06_splice_agreement_set_path : forall dbg hp hpo hd u x u', HostRT hp hpo hd -> Canon hp hpo hd u ->
-  has_authority_b u = true -> usv_list x -> forallb no_qh x = true -> path_arg_ok x ->
+  has_authority_b u = true -> usv_list x -> forallb no_qh x = true -> path_arg_ok (sp_of u) x ->
   (query_start u = None -> fragment_start u = None -> first_ok (rev x)) ->
   set_path dbg u x = Some u' -> nlen (ser u') <= U32_MAX_P ->
   parse_url dbg hp hpo hd None None (splice_path u x) = POk u'.
@@ -888,11 +888,11 @@ Check C06_splice_agreement_set_host : forall dbg hp hpo hd u x u', HostRT hp hpo
 Print Assumptions C06_splice_agreement_set_host.
 
 Theorem C06_set_path_Canon : forall dbg hp hpo hd u x u', HostRT hp hpo hd -> Canon hp hpo hd u ->
-  has_authority_b u = true -> usv_list x -> forallb no_qh x = true -> path_arg_ok x ->
+  has_authority_b u = true -> usv_list x -> forallb no_qh x = true -> path_arg_ok (sp_of u) x ->
   set_path dbg u x = Some u' -> nlen (ser u') <= U32_MAX_P -> Canon hp hpo hd u'.
 Proof. intros dbg hp hpo hd u x u' HRT. exact (set_path_Canon dbg hp hpo hd HRT u x u'). Qed.
 Check C06_set_path_Canon : forall dbg hp hpo hd u x u', HostRT hp hpo hd -> Canon hp hpo hd u ->
-  has_authority_b u = true -> usv_list x -> forallb no_qh x = true -> path_arg_ok x ->
+  has_authority_b u = true -> usv_list x -> forallb no_qh x = true -> path_arg_ok (sp_of u) x ->
   set_path dbg u x = Some u' -> nlen (ser u') <= U32_MAX_P -> Canon hp hpo hd u'.
 Print Assumptions C06_set_path_Canon.
 
@@ -909,13 +909,15 @@ Print Assumptions C06_set_host_Canon.
 
 (* the hypotheses are met (ex_hp / ex_hd satisfy HostRT and host_above; qx_u = "a://h:80/p?q#f" and sx_u = "http://u:p@h/p"
    are canonical: C06_splice_agreement_inhabited): the spliced texts are "a://h:80/a b/../c?q#f" (result "a://h:80/c?q#f"),
-   "http://u:p@h/x y", "a://h:80?q#f" (empty argument), "a://x.y:80/p?q#f", "http://u:p@abc/p" *)
+   "http://u:p@h/x y", "http://u:p@h\x" (result "http://u:p@h/x"), "a://h:80?q#f" (empty argument), "a://x.y:80/p?q#f", "http://u:p@abc/p" *)
 Example C06_splice_agreement2_inhabited :
   has_authority_b qx_u = true /\ has_authority_b sx_u = true
   /\ splice_case (set_path true qx_u (B "/a b/../c")) (splice_path qx_u (B "/a b/../c")) (B "a://h:80/a b/../c?q#f") "a://h:80/c?q#f"
-  /\ forallb no_qh (B "/a b/../c") = true /\ path_arg_ok (B "/a b/../c")
+  /\ forallb no_qh (B "/a b/../c") = true /\ path_arg_ok (sp_of qx_u) (B "/a b/../c")
   /\ splice_case (set_path true sx_u (B "/x y")) (splice_path sx_u (B "/x y")) (B "http://u:p@h/x y") "http://u:p@h/x%20y"
   /\ first_ok (rev (B "/x y"))
+  /\ splice_case (set_path true sx_u [92; 120]) (splice_path sx_u [92; 120]) (B "http://u:p@h" ++ [92; 120]) "http://u:p@h/x"
+  /\ path_arg_ok (sp_of sx_u) [92; 120]
   /\ splice_case (set_path true qx_u []) (splice_path qx_u []) (B "a://h:80?q#f") "a://h:80?q#f"
   /\ splice_case (ok_of (set_host true ex_hp ex_hp ex_hd qx_u (Some (B "x.y")))) (splice_host qx_u (B "x.y")) (B "a://x.y:80/p?q#f") "a://x.y:80/p?q#f"
   /\ forallb (hostarg (sp_of qx_u)) (B "x.y") = true
@@ -1015,7 +1017,7 @@ Theorem C06_all_calls_unfold : forall dbg hp hpo hd u, all_calls dbg hp hpo hd u
   /\ (forall x u', has_authority_b u = true -> usv_list x -> set_path dbg u x = Some u' -> nlen (ser u') <= U32_MAX_P ->
      wfh u' /\ same_front dbg u u' /\ query dbg u' = query dbg u /\ fragment dbg u' = fragment dbg u
      /\ (exists P, path u' = Some P /\ new_path_ok P)
-     /\ (forallb no_qh x = true -> path_arg_ok x ->
+     /\ (forallb no_qh x = true -> path_arg_ok (sp_of u) x ->
          Canon hp hpo hd u'
          /\ ((query_start u = None -> fragment_start u = None -> first_ok (rev x)) ->
              parse_url dbg hp hpo hd None None (splice_path u x) = POk u')))
@@ -1131,7 +1133,7 @@ Qed.
 
 Theorem C06_splice_exclusions_refuted :
   Canon ex_hp ex_hp ex_hd qx_u /\ has_authority_b qx_u = true
-  /\ parse_differs (set_path true qx_u (B "x")) (splice_path qx_u (B "x")) /\ ~ path_arg_ok (B "x")
+  /\ parse_differs (set_path true qx_u (B "x")) (splice_path qx_u (B "x")) /\ ~ path_arg_ok (sp_of qx_u) (B "x")
   /\ parse_differs (set_path true qx_u (B "/a?b")) (splice_path qx_u (B "/a?b")) /\ forallb no_qh (B "/a?b") = false
   /\ parse_differs (ok_of (set_host true ex_hp ex_hp ex_hd qx_u (Some (B "x:81")))) (splice_host qx_u (B "x:81"))
   /\ forallb (hostarg (sp_of qx_u)) (B "x:81") = false
